@@ -73,6 +73,8 @@ def stream_layout(seed, tier):
     cfgs = [c for c in gen.CORPUS if not c.tracked()]
     for i in range(n_rand):
         cfgs.append(gen.random_cfg(rng, "L%d" % i, category=["plain", "fixed", "varying", "mixed", "mixed", "varying"][i % 6]))
+    for i in range(10 if tier == "quick" else 60):
+        cfgs.append(gen.bracket_cfg(rng, "B%d" % i))
     out = []
     for c in cfgs:
         seqs = 2 if tier == "quick" else 4
@@ -82,6 +84,12 @@ def stream_layout(seed, tier):
         # the block is sized for exactly N elements and B payload bytes: fill it to exactly that, in several ways
         for mode in ((0, 1, 2, 3) if tier == "quick" else (0, 0, 0, 1, 2, 2, 3, 3)):
             out.append((c, gen.gen_tight_fill(rng, c, mode)))
+    # element-wise relocation (non-trivial value types): equal element sizes keep it free of the known overlap, so that
+    # the layout after erase in the middle is compared object by object
+    for c in [c for c in gen.CORPUS if c.tracked()]:
+        for s in range(3 if tier == "quick" else 10):
+            out.append((c, gen.gen_history(rng, c, 24 if tier == "quick" else 60, equal_sizes=True,
+                                           weights={"emplace": 10, "pop": 1, "erase": 6, "eraser": 3, "clear": 0, "reserve": 2})))
     return out
 
 
@@ -233,7 +241,8 @@ STREAMS = {
     "C01": stream_history, "C02": stream_layout, "C03": stream_layout, "C04": stream_layout,
     "C05": lambda seed, tier: stream_layout(seed, tier) + stream_alloc(seed, tier),
     "C06": lambda seed, tier: stream_history(seed, tier) + stream_alloc(seed, tier) + stream_element(seed, tier),
-    "C10": stream_history, "C16": stream_history,
+    "C10": stream_history,
+    "C16": lambda seed, tier: stream_history(seed, tier) + stream_alloc(seed, tier),
     "C18": lambda seed, tier: stream_history(seed, tier) + stream_alloc(seed, tier),
     "C07": lambda seed, tier: stream_alloc(seed, tier) + stream_element(seed, tier),
     "C08": lambda seed, tier: stream_alloc(seed, tier) + stream_element(seed, tier),
